@@ -224,6 +224,12 @@ theorem cast_to_generic_type_is_split :
     (parseArgs [.punct ',' false, .ident "x", .ident "as", .ident "M", .punct '<' false, .ident "K",
       .punct ',' false, .ident "V", .punct '>' false]).map List.length = some 2 := by decide
 
+/-- `a < b, c > ::d`: the `<` of one argument and the `> ::` of a later one are paired as `<..>::`;
+one argument instead of two comparisons. -/
+theorem lt_and_gt_global_path_is_one_argument :
+    (parseArgs [.punct ',' false, .ident "a", .punct '<' false, .ident "b", .punct ',' false,
+      .ident "c", .punct '>' false, .punct ':' true, .punct ':' false, .ident "d"]).map List.length = some 1 := by decide
+
 /-- Non-vacuity: `f::<A, B>(1), y` is two arguments. -/
 example : (parseArgs [.punct ',' false, .ident "f", .punct ':' true, .punct ':' true, .punct '<' false,
     .ident "A", .punct ',' false, .ident "B", .punct '>' false, .group .paren [.lit "1"],
